@@ -347,18 +347,13 @@ func (m *{{ .Name }}) Delete(k {{ .KeyType }}) {
 }
 
 func (m *{{ .Name }}) delete(k {{ .KeyType }}) {
-var kk {{ .KeyType }}
-	i := -1
+	delete(m.data, k)
 
-	for i, kk = range m.order {
+	for i, kk := range m.order {
 		if kk == k {
+			m.order = append(m.order[:i], m.order[i+1:]...)
 			break
 		}
-	}
-
-	delete(m.data, k)
-	if i != -1 {
-		m.order = append(m.order[:i], m.order[i+1:]...)
 	}
 }
 
@@ -367,11 +362,15 @@ func (m *{{ .Name }}) Filter(fn filter{{ .CapitalizedName }}Func) {
 	m.mx.Lock()
 	defer m.mx.Unlock()
 
+	order := make([]{{ .KeyType }}, 0, len(m.order))
 	for _, k := range m.order {
-		if !fn(k, m.data[k]) {
-			m.delete(k)
+		if fn(k, m.data[k]) {
+			order = append(order, k)
+		} else {
+			delete(m.data, k)
 		}
 	}
+	m.order = order
 }
 
 type filter{{ .CapitalizedName }}Func = func(k {{ .KeyType }}, v {{ .ValueType }}) bool
